@@ -346,6 +346,8 @@ package part
 //@   ensures @leaf leafOf(result) == old(leafOf(n))
 //@   ensures @prefix result.prefixP == old(n.prefixP) && result.prefixLen == old(n.prefixLen)
 //@   ensures @frame onlyFresh()
+//@   loop 1 invariant @frame onlyFresh()
+//@   loop 2 invariant @frame onlyFresh()
 //@ func newLeaf
 //@   property C01 C02 C06 C09 C11 C12 C17
 //@   flag nosafety
